@@ -159,7 +159,11 @@ func solveAll(u *Universe, obls []*Obligation, outDir string, timeoutS, workers,
 		go func(i int, o *Obligation) {
 			defer wg.Done()
 			defer func() { <-sem }()
-			res[i] = solveOne(u, o, outDir, timeoutS, seed)
+			to := timeoutS
+			if o.ExpectSat && to > 4 {
+				to = 4 // covers: only an unsat answer matters (vacuity); sat/unknown are both fine
+			}
+			res[i] = solveOne(u, o, outDir, to, seed)
 		}(i, o)
 	}
 	wg.Wait()
@@ -168,7 +172,7 @@ func solveAll(u *Universe, obls []*Obligation, outDir string, timeoutS, workers,
 	var retry []int
 	for i, v := range res {
 		undecided := v.Result != "sat" && v.Result != "unsat"
-		if undecided && obls[i].Kind != "unsupported" {
+		if undecided && obls[i].Kind != "unsupported" && !obls[i].ExpectSat {
 			retry = append(retry, i)
 		}
 	}
